@@ -29,6 +29,8 @@ def main():
         except Exception as e:   # noqa
             res, err = None, f"{type(e).__name__}: {e}"
         bad = spec["check"](inp, res, err)
+        if req.get("prefix"):
+            bad = [b for b in bad if b.startswith(req["prefix"])]
         key = json.dumps(inp, sort_keys=True, default=str)
         if key not in distinct and spec.get("nontrivial", lambda i, r: True)(inp, res):
             distinct.add(key)
